@@ -290,7 +290,7 @@ def run(ctx):
                         "the thread-based stand-in for multiprocessing (vf/sched.py) is trusted; real-process runs cross-check it"]
     # ---------------- A. MC
     for c in QUICK_MC + ([] if quick else THOROUGH_MC):
-        r = ctx.mc("mc/MC_Pool.tla", "mc/MC_Pool_%s.cfg" % c, workers=core.NCPU, timeout=3000, coverage=not quick)
+        r = ctx.mc("mc/MC_Pool.tla", "mc/MC_Pool_%s.cfg" % c, workers=core.NCPU, timeout=4 * 3600, coverage=not quick)
         if r.violated:
             ctx.reject("mc-%s" % c, "Pool model violates %s" % r.violated, {"tlc": r.out[-4000:]}, None)
         if r.coverage:
